@@ -358,6 +358,98 @@ def renamePkg (tree : V) (pkg : String) : V :=
   | .ptr t id (doc :: pk :: .ptr ti iid [p, _, o] :: rest) => .ptr t id (doc :: pk :: .ptr ti iid [p, .str pkg, o] :: rest)
   | v => v
 
+/-! ### the import declarations inside the tree
+
+`astutil.AddNamedImport` puts a new `ImportSpec` into the first import declaration and merges every other
+import declaration into it; `DeleteNamedImport` removes the spec (and a declaration that becomes empty).  Later
+changes of the same run see those nodes (a bare expression metavariable matches the path literal of an import),
+so the tree has to follow the list `f.imports`.  Placement inside the declaration does not matter to any
+observation (sites are replaced independently; import declarations are compared as a multiset). -/
+
+def isImportGenDecl : V → Bool
+  | .iface _ (.ptr t _ (_ :: _ :: .int tok :: _)) => t == "ast.GenDecl" && tok == tokIMPORT
+  | _ => false
+
+/-- (name?, path) of an `ImportSpec` element of `GenDecl.Specs` -/
+def specKey : V → Option (Option String × String)
+  | .iface _ (.ptr t _ [_, nm, .ptr _ _ [_, _, .str lit], _, _]) =>
+      if t == "ast.ImportSpec" then
+        let name := match nm with
+          | .ptr _ _ [_, .str n, _] => some n
+          | _ => none
+        let cs := lit.toList
+        some (name, String.ofList ((cs.drop 1).take (cs.length - 2)))
+      else none
+  | _ => none
+
+def specsOf : V → List V
+  | .iface _ (.ptr _ _ (_ :: _ :: _ :: _ :: .slice _ specs :: _)) => specs
+  | _ => []
+
+def mkImportSpec (imp : Option String × String) : V :=
+  .iface "ast.Spec" (.ptr "ast.ImportSpec" 0 [.nilP "ast.CommentGroup",
+    (match imp.1 with
+     | some n => .ptr "ast.Ident" 0 [.pos true 0, .str n, .nilP "ast.Object"]
+     | none => .nilP "ast.Ident"),
+    .ptr "ast.BasicLit" 0 [.pos true 0, .int 9, .str ("\"" ++ imp.2 ++ "\"")],
+    .nilP "ast.CommentGroup", .pos true 0])
+
+/-- remove the first element whose key is `k` -/
+def eraseSpec (k : Option String × String) : List V → List V
+  | [] => []
+  | s :: ss => if specKey s == some k then ss else s :: eraseSpec k ss
+
+def withSpecs (decl : V) (specs : List V) : V :=
+  match decl with
+  | .iface i (.ptr t id (doc :: tp :: tok :: lp :: .slice e _ :: rest)) =>
+      .iface i (.ptr t id (doc :: tp :: tok :: (if specs.length > 1 then .pos true 0 else lp) :: .slice e specs :: rest))
+  | v => v
+
+def newImportDecl (specs : List V) : V :=
+  .iface "ast.Decl" (.ptr "ast.GenDecl" 0 [.nilP "ast.CommentGroup", .pos true 0, .int tokIMPORT,
+    .pos (decide (specs.length > 1)) 0, .slice "ast.Spec" specs, .pos false 0])
+
+/-- delete the specs of the imports in `gone` (one each) from the declarations; drop declarations left empty -/
+def deleteSpecs (gone : List (Option String × String)) (decls : List V) : List V :=
+  let step := fun (ds : List V) (k : Option String × String) =>
+    -- the first import declaration that has such a spec loses it
+    let rec go : List V → Bool → List V
+      | [], _ => []
+      | d :: rest, done =>
+          if !done && isImportGenDecl d && (specsOf d).any (fun s => specKey s == some k) then
+            withSpecs d (eraseSpec k (specsOf d)) :: go rest true
+          else d :: go rest done
+    go ds false
+  (gone.foldl step decls).filter (fun d => !(isImportGenDecl d && (specsOf d).isEmpty))
+
+/-- add specs for the imports in `added`: every import declaration is merged into the first one (a new one at the
+front if there is none), the new specs are appended to it -/
+def addSpecs (added : List (Option String × String)) (decls : List V) : List V :=
+  if added.isEmpty then decls else
+  let allSpecs := (decls.filter isImportGenDecl).flatMap specsOf ++ added.map mkImportSpec
+  match decls.find? isImportGenDecl with
+  | none => newImportDecl allSpecs :: decls
+  | some first =>
+      let merged := withSpecs first allSpecs
+      let rec go : List V → Bool → List V
+        | [], _ => []
+        | d :: rest, seen =>
+            if isImportGenDecl d then (if seen then go rest true else merged :: go rest true)
+            else d :: go rest seen
+      go decls false
+
+def diffImports (a b : List (Option String × String)) : List (Option String × String) :=
+  a.filter (fun x => !b.contains x)
+
+/-- make the import declarations of the tree follow the change of the import list from `old` to `new` -/
+def syncImports (tree : V) (old new : List (Option String × String)) : V :=
+  match tree with
+  | .ptr t id (doc :: pk :: nm :: .slice e decls :: rest) =>
+      let decls1 := addSpecs (diffImports new old) decls
+      let decls2 := deleteSpecs (diffImports old new) decls1
+      .ptr t id (doc :: pk :: nm :: .slice e decls2 :: rest)
+  | v => v
+
 inductive Outcome where
   | noMatch
   | ok (f : FileM) (nsites : Nat)
@@ -379,7 +471,7 @@ def applyChange (c : Change) (f : FileM) : Outcome :=
           | .error e => .fail e
           | .ok (imps, names) =>
               let imps' := cleanupImports d tree names (d.matched.getD []) imps
-              let (tree', n') := renumV tree f.nextId
+              let (tree', n') := renumV (syncImports tree f.imports imps') f.nextId
               .ok { pkg := pkg, imports := imps', tree := tree', nextId := n' } sites.length
 
 /-- `patchRunner.Apply` (CLI): all changes in order on the same tree; the first failing
